@@ -29,6 +29,7 @@ def getMode (j : Json) : Except String Mode := do
   | "True" => pure .symbolic
   | "False" => pure .strict
   | "None" => pure .smallest
+  | "1" => pure .smallest      -- `underdetermined is 1`: deprecated spelling, replaced by None before the ILP
   | _ => .error "!bad-arg:mode"
 
 def asEntry (v : Json) : Except String Entry :=
@@ -133,6 +134,12 @@ def h : Handler := fun op j =>
       match dupSearch mode core (reac.length + 1) (← getBool j "allow") reac prod with
       | .ok (r, p) => pure s!"ok {showStrList r} {showStrList p}"
       | .error e => pure (showErr e)
+  | "cks" => do
+      let subs ← (← getArr j "substances").mapM fun e =>
+        match e with
+        | .arr #[n, c] => do pure (← asStr n, ← asComp c)
+        | _ => .error "!bad-arg:substance"
+      pure (showIntList (compositionKeys subs))
   | "minimal" => do
       let x ← getIntList j "x"
       if x.any (· < 0) then .error "!bad-arg:x" else
